@@ -106,7 +106,7 @@ def run(pid, tier, seed, njobs=None):
     if njobs:
         jobs = jobs[:njobs]
     res = lib.run_jobs(jobs, "c09", procs=8)
-    return c02.finish_seq(pid, tier, seed, verdict, jobs, res, t0, sig_prefix="foreign",
+    return c02.finish_seq(pid, tier, seed, verdict, jobs, res, t0, sig_prefix="foreign", level="exploration",
                           rule="every guard-accepting public method of HashMap / HashSet (alphabet checked for completeness against "
                                "the pub fns of /repo/src) called with a guard of an unrelated collector, directly and through with_guard "
                                "reference wrappers, on empty / 1-entry / 12-entry (tree bin) collections; distinct = distinct recorded "
